@@ -226,22 +226,25 @@ class CanBus:
                 self.once.append((t0 + int(a["at"]), int(a["src"]), bytes.fromhex(a["d"])))
         self.once.sort(key=lambda f: f[0])
 
-    def next_frame(self, deadline: int | None) -> tuple[int, int, bytes] | None:
+    def peek_frame(self, deadline: int | None) -> tuple[int, int, bytes] | None:
+        """The next frame on the bus if it arrives before `deadline`; it stays queued until take_frame()."""
         best: tuple[int, int, bytes] | None = None
-        src_idx = -1
+        self._idx = -1
         if self.once:
             best = self.once[0]
         for i, (gap, src, data, at) in enumerate(self.periodic):
             if best is None or at < best[0]:
-                best, src_idx = (at, src, data), i
+                best, self._idx = (at, src, data), i
         if best is None or (deadline is not None and best[0] > deadline):
             return None
-        if src_idx >= 0:
-            gap, src, data, at = self.periodic[src_idx]
-            self.periodic[src_idx] = (gap, src, data, at + gap)
+        return best
+
+    def take_frame(self) -> None:
+        if self._idx >= 0:
+            gap, src, data, at = self.periodic[self._idx]
+            self.periodic[self._idx] = (gap, src, data, at + gap)
         else:
             self.once.pop(0)
-        return best
 
 
 class FakeCan(RawCANTransport, scheme="fake-can-raw"):
@@ -261,16 +264,22 @@ class FakeCan(RawCANTransport, scheme="fake-can-raw"):
     async def recvfrom(self, timeout: float | None = None, tags: list[str] | None = None) -> tuple[int, bytes]:
         t0 = now_ms()
         deadline = None if timeout is None else t0 + int(round(timeout * 1000))
-        f = self.bus.next_frame(deadline)
-        if f is None:
-            if timeout is None:
-                await asyncio.Event().wait()
-            await asyncio.sleep(timeout or 0)
+        f = self.bus.peek_frame(deadline)
+        try:
+            if f is None:
+                if timeout is None:
+                    await asyncio.Event().wait()
+                await asyncio.sleep(timeout or 0)
+                self.bus.log.append({"e": "T", "ms": now_ms() - t0})
+                raise TimeoutError("scripted bus: nothing received")
+            at, src, data = f
+            if at > t0:
+                await asyncio.sleep((at - t0) / 1000.0)
+        except asyncio.CancelledError:
+            # the caller gave up (its own deadline): this receive ended without a frame, too
             self.bus.log.append({"e": "T", "ms": now_ms() - t0})
-            raise TimeoutError("scripted bus: nothing received")
-        at, src, data = f
-        if at > t0:
-            await asyncio.sleep((at - t0) / 1000.0)
+            raise
+        self.bus.take_frame()
         self.bus.log.append({"e": "R", "d": list(data), "from": int(src)})
         return src, data
 
